@@ -715,7 +715,11 @@ func renderStarNode(pkg node) string {
 // called goal_<i> and the annotation carries `name:`; otherwise the goal name
 // is the target name (documented default). The command of the definition must
 // be "make <goal>" (see makefileTwin).
-func renderMakefile(d pkgDef, explicitName bool) string {
+//
+// ruleTail is what follows the colon of every rule line: nothing, ordinary
+// prerequisites, or order-only prerequisites — make syntax that does not change
+// the goal's name, so the loaded target must be the same in all three.
+func renderMakefile(d pkgDef, explicitName bool, ruleTail string) string {
 	var b strings.Builder
 	for i, t := range d.Targets {
 		goal := t.Name
@@ -729,9 +733,15 @@ func renderMakefile(d pkgDef, explicitName bool) string {
 				b.WriteString("# " + l + "\n")
 			}
 		}
-		b.WriteString(goal + ":\n\t@true\n\n")
+		b.WriteString(goal + ":" + ruleTail + "\n\t@true\n\n")
 	}
 	return b.String()
+}
+
+// rule lines with something after the colon (C16-r6m1 took the whole line as the goal name)
+var mkRuleTails = []struct{ name, text string }{
+	{"prereqs", " lib.o main.c"},
+	{"order-only", " | gen_dir"},
 }
 
 // makefileTwin returns the definition a Makefile can express: every command is
@@ -1002,8 +1012,13 @@ func partAgree(shard, shards int) {
 			if explicit {
 				style = "explicit-name"
 			}
-			rs := []rendering{{"json", "BUILD.json", renderJSON(tw)}, {"makefile", "Makefile", renderMakefile(tw, explicit)}}
+			rs := []rendering{{"json", "BUILD.json", renderJSON(tw)}, {"makefile", "Makefile", renderMakefile(tw, explicit, "")}}
 			compare(root, id+"|makefile:"+style, tw, rs)
+			for _, tail := range mkRuleTails {
+				rt := []rendering{rs[0], {"makefile", "Makefile", renderMakefile(tw, explicit, tail.text)}}
+				compare(root, id+"|makefile:"+style+":"+tail.name, tw, rt)
+				vrep.AddInt("a_makefile_rule_line_variants", 1)
+			}
 			vrep.Nontrivial.Add("a-mk|" + style + tw.key())
 			if explicit && shard == 0 && len(tw.Targets) == 2 && !tw.Invalid && !mkSampled {
 				mkSampled = true
